@@ -37,6 +37,107 @@ type walkState struct {
 	q     PathQ
 	seen  map[string]bool
 	steps int
+	rep   map[string]ssa.Value // pure condition key → representative condition value
+}
+
+// pureCondKey: a comparison whose operands only read constants, parameters and fields of by-value
+// parameter structs that the function never writes. Such a condition has one outcome per call.
+func pureCondKey(cond ssa.Value) (string, bool) {
+	b, ok := cond.(*ssa.BinOp)
+	if !ok {
+		return "", false
+	}
+	switch b.Op {
+	case token.LSS, token.GTR, token.LEQ, token.GEQ, token.EQL, token.NEQ:
+	default:
+		return "", false
+	}
+	if !pureOperand(b.X, 0) || !pureOperand(b.Y, 0) {
+		return "", false
+	}
+	return D(cond), true
+}
+
+func pureOperand(v ssa.Value, depth int) bool {
+	if depth > 6 {
+		return false
+	}
+	switch x := v.(type) {
+	case *ssa.Const:
+		return true
+	case *ssa.Parameter:
+		// scalars only: a pointer/map/slice parameter can be mutated behind the analysis' back
+		switch x.Type().Underlying().(type) {
+		case *types.Basic:
+			return true
+		}
+		return false
+	case *ssa.Convert:
+		return pureOperand(x.X, depth+1)
+	case *ssa.BinOp:
+		return pureOperand(x.X, depth+1) && pureOperand(x.Y, depth+1)
+	case *ssa.UnOp:
+		if x.Op != token.MUL {
+			return pureOperand(x.X, depth+1)
+		}
+		// load of a field of a spilled by-value struct parameter that is never field-written
+		fa, ok := x.X.(*ssa.FieldAddr)
+		if !ok {
+			return false
+		}
+		for {
+			if inner, ok := fa.X.(*ssa.FieldAddr); ok {
+				fa = inner
+				continue
+			}
+			break
+		}
+		al, ok := fa.X.(*ssa.Alloc)
+		if !ok {
+			return false
+		}
+		if _, isParam := singleStoreAlloc(al).(*ssa.Parameter); !isParam {
+			return false
+		}
+		return !allocFieldWritten(al)
+	case *ssa.Field:
+		return pureOperand(x.X, depth+1)
+	}
+	return false
+}
+
+// allocFieldWritten: some field (transitively) of the local struct is stored to, or its address escapes.
+func allocFieldWritten(al *ssa.Alloc) bool {
+	var walk func(v ssa.Value) bool
+	walk = func(v ssa.Value) bool {
+		refs := v.Referrers()
+		if refs == nil {
+			return false
+		}
+		for _, r := range *refs {
+			switch y := r.(type) {
+			case *ssa.FieldAddr:
+				if walk(y) {
+					return true
+				}
+			case *ssa.Store:
+				if y.Addr == v && v != ssa.Value(al) {
+					return true
+				}
+			case *ssa.UnOp, *ssa.DebugRef:
+			case *ssa.MakeClosure:
+				return true
+			case ssa.CallInstruction:
+				return true // address passed to a call
+			default:
+				if _, isFA := v.(*ssa.FieldAddr); isFA {
+					return true
+				}
+			}
+		}
+		return false
+	}
+	return walk(al)
 }
 
 // resolveCond strips negations and follows φ aliases; returns the underlying condition and the
@@ -185,7 +286,24 @@ func (st *walkState) run(b *ssa.BasicBlock, start int, env map[ssa.Value]bool, a
 		if st.q.Edge != nil && !st.q.Edge(b, i) {
 			continue
 		}
+		var memoRep ssa.Value
 		if cond != nil && len(b.Succs) == 2 {
+			// a pure condition over immutable inputs (fields of a by-value parameter, constants)
+			// evaluated twice has the same outcome both times: remember it along the path
+			if k, ok := pureCondKey(cond); ok {
+				if st.rep == nil {
+					st.rep = map[string]ssa.Value{}
+				}
+				if r, have := st.rep[k]; have {
+					memoRep = r
+				} else {
+					st.rep[k] = cond
+					memoRep = cond
+				}
+				if v, known := env[memoRep]; known && (i == 0) != v {
+					continue
+				}
+			}
 			if v, known := evalBool(cond, env); known {
 				if (i == 0) != v {
 					continue
@@ -248,6 +366,9 @@ func (st *walkState) run(b *ssa.BasicBlock, start int, env map[ssa.Value]bool, a
 			} else {
 				nenv[k] = *v
 			}
+		}
+		if memoRep != nil {
+			nenv[memoRep] = i == 0
 		}
 		sig := envSig(s, nenv)
 		if len(nalias) > 0 {
